@@ -256,7 +256,7 @@ type runner struct {
 	results   chan result
 	ev        *eval.Evaler
 	out       *eval.Port // the caller's ports 1 and 2: /dev/null opened for writing once, outside every measured window
-	cancelAt  int32 // cancel the context at the k-th pipeline.enter (0 = never)
+	cancelAt  int32      // cancel the context at the k-th pipeline.enter (0 = never)
 	enters    int32
 	cancel    context.CancelFunc
 	cancelled atomic.Bool
@@ -327,16 +327,17 @@ func (r *runner) eval(code string, cancelAt int, inflight time.Duration) result 
 }
 
 type VCase struct {
-	Shape Shape  `json:"shape"`
-	Intr  bool   `json:"intr"`
-	PFail bool   `json:"pfail"`
-	Exc   bool   `json:"exc"`
-	Fd    int    `json:"fd"`
-	Go    int    `json:"go"`
-	Bg    bool   `json:"bg"`
-	Code  string `json:"code"`
-	How   string `json:"how"` // plain | start:k | inflight | pipefail
-	N     int    `json:"n"`   // number of evaluations summarised (worst projection kept)
+	Shape  Shape  `json:"shape"`
+	Intr   bool   `json:"intr"`
+	PFail  bool   `json:"pfail"`
+	Strict bool   `json:"strict"` // a shape of the model (G): the outcome is compared both ways
+	Exc    bool   `json:"exc"`
+	Fd     int    `json:"fd"`
+	Go     int    `json:"go"`
+	Bg     bool   `json:"bg"`
+	Code   string `json:"code"`
+	How    string `json:"how"` // plain | start:k | inflight | pipefail
+	N      int    `json:"n"`   // number of evaluations summarised (worst projection kept)
 }
 
 type variant struct {
@@ -508,7 +509,7 @@ func run(c *lib.Ctx) error {
 	if c.Thorough() {
 		maxForms, level = 3, 2
 	}
-	N := c.Pick(30, 40)
+	N := c.Pick(18, 40)
 	c.Set("bounds", map[string]any{"MaxForms": maxForms, "Level": level, "N": N})
 	tr, err := c.TLC("MCPortsRes", lib.TLCRun{Dir: dir, Module: "MCPortsRes", Workers: 4, Timeout: 40 * time.Minute, HeapGB: 8, Deadlock: true,
 		Files: map[string][]byte{"MCPortsRes.cfg": mcCfg(maxForms, level, true)}})
@@ -557,7 +558,7 @@ func run(c *lib.Ctx) error {
 		if hasKind(g.Shape, "sleep") {
 			vs = append(vs, variant{how: "inflight", inflight: 500 * time.Microsecond, long: true})
 		}
-		if pipeFailApplies(g.Shape) && pfLeaks < 2 { // a leaking case costs the full settle limit: two are enough to report
+		if pipeFailApplies(g.Shape) && pfLeaks < 1 { // a leaking case costs the full settle limit: one is enough to report
 			vs = append(vs, variant{how: "pipefail", pipefail: true})
 		}
 		for _, v := range vs {
@@ -569,6 +570,7 @@ func run(c *lib.Ctx) error {
 			if err != nil {
 				return err
 			}
+			vc.Strict = true
 			if v.how == "plain" && vc.Exc != g.Fails {
 				return lib.Infra("%q: raised=%v but the model's FailsP=%v: the rendering does not take the intended path", vc.Code, vc.Exc, g.Fails)
 			}
@@ -627,6 +629,7 @@ func run(c *lib.Ctx) error {
 	c.Logf("V: %d random programs in %.1fs", nv, time.Since(t0).Seconds())
 	eval.VerifTrace = nil
 
+	c.Assume("TLC trusted; the projection is (|/proc/self/fd|, runtime.NumGoroutine()) relative to a baseline of three equal consecutive samples, sampled after each evaluation with a settle loop of 15 s (still changing at the end = exit 2), GC off inside the window; the outcome (raised or not) is compared with the model's FailsP only to make sure the rendering took the intended path; interruptions are placed exactly at the k-th pipeline start (eval.VerifTrace) and by a timer in flight; shapes that redirect port 0 of a form reading from a pipe are evaluated only when that does not fault (C42 finding)")
 	// ---- all recorded cases are judged by TLC (nothing is measured any more)
 	return judge(c, dir, cases)
 }
